@@ -101,6 +101,13 @@ fn supervise(args: &[String]) -> ! {
 }
 
 fn main() {
+    // everything runs on a thread with a large stack: the reference model and the generators recurse
+    let h = std::thread::Builder::new().stack_size(512 << 20).spawn(real_main).expect("spawn main thread");
+    let _ = h.join();
+    std::process::exit(3);
+}
+
+fn real_main() {
     let args: Vec<String> = std::env::args().collect();
     if args.len() >= 2 && std::env::var("VERIF_CHILD").is_err() {
         supervise(&args);
